@@ -95,6 +95,16 @@ CLAIMS = {
                 'WHFast (default kernel, no correctors), every uncorrected SABA type and every unprocessed EOS splitting (both shells) is a palindromic operator word.',
         not_decided='the bit-wise round trip itself; float->int conversion semantics of the platform; SEI',
         design_ref='3/C10'),
+    'C11': dict(
+        module='c11', level='other',
+        technique='sibling agreement between the C argument parser (clang AST) and the Python constructor (ast): set extraction, expression equality via sympy, idiom lints',
+        decided='the argument classes of the C parser (cartesian, orbital, non-Pal, Pal, longitudes) equal the lists of the Python constructor and every C token is a Python argument; every error '
+                'code that can be set has a message, Python raises for every code of reb_particle_from_orbit_err, the parser rejections come in the documented order and return NaN; both sides apply the same '
+                'zero defaults; Python obtains the element maps and anomaly conversions from C, and the conversions it does inline (a from P, mean motion, M from T) and the retrograde conventions for '
+                'pomega/theta/l are the same expressions as in C; no anomaly/element conversion takes a sign by the division X/fabs(X); every component of a particle built from elements is offset by the '
+                'same component of the primary.',
+        not_decided='the numeric round trip; ranges of returned angles; threshold branches near circular/planar orbits; the Kepler solvers\' convergence',
+        design_ref='3/C11'),
     'C12': dict(
         module='c12', level='other',
         technique='sibling/slice isomorphism over the clang AST: kind projections of transformation variants, xyz component renaming, MERCURIUS/TRACE twin comparison',
